@@ -5,6 +5,7 @@ from .pat import (num, is_const, unload, last_field, is_field, strip_casts, is_c
                   all_paths, show_facts, field_chain, root_of, contains, base_of, find_calls)
 from .tables import aggregates, unwrap, src_field, src_base
 from .rules_limits import FW, ret_defs, shape, switch_conditions, is_false_const
+from .inline import expand_calls
 
 
 def is_ok_ret(v):
@@ -61,7 +62,7 @@ def dist_ctor_table(ctx, rep=None):
     return res
 
 
-def uniform_guard(ctx, fn, fa, b, d):
+def uniform_guard(ctx, fn, fa, b, d, need=None):
     """dist_sample's gen_range(low..high): low/high are the Uniform fields, the call is behind low != high,
     and validate's Uniform arm rejects NaN/infinite/reversed/overflowing ranges"""
     prog, an = ctx.prog, ctx.an
@@ -79,7 +80,8 @@ def uniform_guard(ctx, fn, fa, b, d):
     ok, w = all_paths(st, neq)
     if not (ok and st):
         return False
-    return all(uniform_validate_facts(ctx).values())
+    uf = uniform_validate_facts(ctx)
+    return all(v for k, v in uf.items() if need is None or k in need)
 
 
 def uniform_validate_facts(ctx):
@@ -245,6 +247,7 @@ def check_C13(ctx, rep):
         for (b, k, v) in ret_defs(fa2):
             if num(v) is not None:
                 continue
+            v = expand_calls(ctx, v)
             ok = v[0] == 'cast' and v[1] == 'FloatToInt' and contains(v, lambda x: is_call(x, 'Dist::sample'))
             rep.ob('C13.R5', f, 'saturating-cast', ok, 'returns %s' % shape(v))
         bad = [callee_str(c) for (b, c, a, t) in calls(fa2) if any(x in callee_str(c) for x in ('to_int_unchecked', 'TryInto', 'try_from', 'try_into', 'transmute'))]
